@@ -1,6 +1,7 @@
 # C17 AEAD discipline: AAD provenance, decrypt-error discipline, nonce spaces
 import re
 from sa.rules import *
+import rules.wave3 as W3
 from rules.netcode_common import *
 import rules.shared as shared
 from rules.oblcommon import obl_rule
@@ -149,6 +150,9 @@ def rules(t):
     r, d_ = obl_rule("C17.f", "OBL: truncated or malformed sealed data yields an error, never a panic: every input-dependent partial operation in Packet::decode / crypto / token open is discharged or vetted", "netcode", floor=3,
                      select=lambda s_: any(x in s_["fn"] for x in ("packet::Packet", "crypto::", "PrivateConnectToken::decode", "ChallengeToken::decode", "packet::read_sequence", "packet::decode_prefix")))
     out.append(r)
+    out.append(W3.key_distinct(t, "C17.g"))
+    import rules.noncebytes as NB
+    out.append(NB.nonce_bytes(t, "C17.h"))
     return out
 
 def is_protocol(o):
